@@ -655,3 +655,198 @@ T('f_c12_ring_ctor_closure_own_locals', ['C12'],
   (CTX, _PRC, '            filled = {}\n' + _PRC),
   (CTX, '                context[arg] = kwargs.get(arg, self.defaults.get(arg))\n',
         '                context[arg] = kwargs.get(arg, self.defaults.get(arg))\n                filled[arg] = context[arg]\n'))
+
+# ---- round w: a definition of the mechanism moved (verbatim) into another module of the package and imported back ----------------
+# (the anchor follows the import to the definition; everything about it -- its parent map, its free names, its report
+#  location -- is read in the module it lives in now)
+UT = 'clastic/utils.py'
+_CV_DEF = ('def check_valid_wsgi(wsgi_callable):\n'
+           '    if not callable(wsgi_callable):\n'
+           "        raise TypeError('expected WSGI application (%r) to be callable'\n"
+           '                        % (wsgi_callable,))\n'
+           '    wc_args = get_arg_names(wsgi_callable)[:2]\n'
+           '    if (not len(wc_args) == 2\n'
+           "        or wc_args[0] != 'environ'\n"
+           "        or wc_args[1] != 'start_response'):\n"
+           "        raise TypeError('expected WSGI callable (%r)'\n"
+           "                        ' to accept two arguments, `environ` and'\n"
+           "                        ' `start_response`, respectively, not %r'\n"
+           '                        % (wsgi_callable, wc_args))\n'
+           '    return\n'
+           '\n'
+           '\n')
+_GM_DEF = ('def _get_all_middlewares(bound_routes, app_middlewares=()):\n'
+           '    # TODO: use merge_middlewares\n'
+           '    all_mw = []\n'
+           '\n'
+           "    # the application's own middlewares count even when no route is\n"
+           '    # bound yet (routes may be added later with Application.add)\n'
+           '    for mw in app_middlewares:\n'
+           '        if mw not in all_mw:\n'
+           '            all_mw.append(mw)\n'
+           '\n'
+           '    for broute in reversed(bound_routes):\n'
+           '        for mw in broute.middlewares:\n'
+           "            # use list and eq so mws don't have to be hashable\n"
+           '            if mw not in all_mw:\n'
+           '                all_mw.append(mw)\n'
+           '\n'
+           '    return all_mw\n'
+           '\n'
+           '\n')
+_SW_DEF = ('def _safe_wrap_wsgi(source_name, source, inner):\n'
+           "    wsgi_wrapper = getattr(source, 'wsgi_wrapper', None)\n"
+           '    if wsgi_wrapper is None:\n'
+           '        return inner  # no wsgi_wrapper, no problem\n'
+           '    elif not callable(wsgi_wrapper):\n'
+           "        raise TypeError('expected %s.wsgi_wrapper to be callable'\n"
+           "                        ' or None, not %r' % (source_name, wsgi_wrapper))\n"
+           '\n'
+           '    wrapped_wsgi = wsgi_wrapper(inner)\n'
+           '    try:\n'
+           '        check_valid_wsgi(wrapped_wsgi)\n'
+           '    except TypeError as te:\n'
+           "        raise TypeError('expected valid WSGI callable from %s'\n"
+           "                        ' (%r) WSGI wrapper (%r), instead'\n"
+           "                        ' got issue: %r'\n"
+           '                        % (source_name, source, wsgi_wrapper, te))\n'
+           '    return wrapped_wsgi\n'
+           '\n'
+           '\n')
+_RES_DEF = ('def fast_randint(start, stop):\n'
+            '    """Assumes you know what you\'re doing, unlike random.randint() which\n'
+            '    is pretty slow with all of its aggressive checking. See random.py\n'
+            '    or this post for more:\n'
+            '    https://eli.thegreenplace.net/2018/slow-and-fast-methods-for-generating-random-integers-in-python/\n'
+            '\n'
+            '    Specifically assumes:\n'
+            '      * start and stop are ints\n'
+            '      * start < stop\n'
+            '\n'
+            '    Ubuntu 16.04, CPy2.7.11+\n'
+            '    This func: 1000000 loops, best of 3: 0.288 usec per loop\n'
+            '    random.randint: 1000000 loops, best of 3: 0.785 usec per loop\n'
+            '    """\n'
+            '    return (start + int(random.random() * (stop + 1 - start)))\n'
+            '\n'
+            '\n'
+            'class Reservoir(object):\n'
+            '    def __init__(self, cap=True, data=None, container=None):\n'
+            '        if cap is True:\n'
+            '            self._cap = 2 ** 14  # 16k\n'
+            '        elif cap is False:\n'
+            "            self._cap = float('inf')\n"
+            '        else:\n'
+            '            self._cap = int(cap)\n'
+            '        if container is None:\n'
+            '            container = []\n'
+            '        self._data = container\n'
+            '        self._total_count = len(container)\n'
+            "        assert self._total_count < self._cap, 'initial count %r must be lower than cap %r' % (self._total_count, self._cap)\n"
+            '\n'
+            '        for val in (data or []):\n'
+            '            self.add(val)\n'
+            '        return\n'
+            '\n'
+            '    @property\n'
+            '    def total_count(self):\n'
+            '        return self._total_count\n'
+            '\n'
+            '    def add(self, val):\n'
+            '        self._total_count += 1\n'
+            '        if len(self._data) < self._cap:\n'
+            '            # not (yet, or after an enlarging resize, no longer) full\n'
+            '            self._data.append(val)\n'
+            '            return\n'
+            '\n'
+            '        idx = fast_randint(0, self._total_count)\n'
+            '        if idx < self._cap:\n'
+            '            self._data[idx] = val\n'
+            '        return\n'
+            '\n'
+            '    def __iter__(self):\n'
+            '        return iter(self._data)\n'
+            '\n'
+            '    def to_list(self):\n'
+            '        return list(self)\n'
+            '\n'
+            '    def resize(self, new_size):\n'
+            '        self._cap = new_size\n'
+            '        if new_size >= len(self._data):\n'
+            '            return\n'
+            '        self._data = self._data[:new_size]\n'
+            '\n'
+            '    def __repr__(self):\n'
+            '        cn = self.__class__.__name__\n'
+            "        return ('<%s cap=%r, data_count=%r, total_count=%r>'\n"
+            '                % (cn, self._cap, len(self._data), self._total_count))\n'
+            '\n'
+            '\n')
+_IMP_MW = 'from .middleware import check_middlewares\n'
+_DUMMY = 'class DummyMiddleware(Middleware):'
+_UT_ANCHOR = 'def int2hexguid(id_int):'
+_IMP_UT = 'from .utils import int2hexguid\n'
+
+
+def _moved_collect(gm_def):
+    return ((A, _GM_DEF, ''), (A, _IMP_MW, _IMP_MW + 'from .middleware.core import _get_all_middlewares\n'), (C, _DUMMY, gm_def + _DUMMY))
+
+
+def _moved_wsgi(cv_def, sw_def):
+    return ((A, _CV_DEF, ''), (A, _SW_DEF, ''), (A, _IMP_UT, 'from .utils import int2hexguid, check_valid_wsgi, _safe_wrap_wsgi\n'),
+            (UT, _UT_ANCHOR, 'from .sinter import get_arg_names\n\n\n' + cv_def + sw_def + _UT_ANCHOR))
+
+
+T('f_c13_collect_moved_into_middleware_core', ['C13', 'C12'], *_moved_collect(_GM_DEF))
+B('f_c13_collect_moved_inner_reversed', ['C13'], 'R13.b',
+  *_moved_collect(_GM_DEF.replace('        for mw in broute.middlewares:\n', '        for mw in reversed(broute.middlewares):\n')))
+B('f_c13_collect_moved_no_dedup', ['C13'], 'R13.b',
+  *_moved_collect(_GM_DEF.replace('            if mw not in all_mw:\n                all_mw.append(mw)\n', '            all_mw.append(mw)\n')))
+T('f_c13_wsgi_helpers_moved_into_utils', ['C13', 'C12'], *_moved_wsgi(_CV_DEF, _SW_DEF))
+B('f_c13_wsgi_helpers_moved_unvalidated_path', ['C13'], 'R13.b',
+  *_moved_wsgi(_CV_DEF, _SW_DEF.replace('    wrapped_wsgi = wsgi_wrapper(inner)\n',
+                                        "    wrapped_wsgi = wsgi_wrapper(inner)\n    if source_name != 'middleware':\n        return wrapped_wsgi\n")))
+B('f_c13_wsgi_helpers_moved_second_name_not_compared', ['C13'], 'R13.b',
+  *_moved_wsgi(_CV_DEF.replace("        or wc_args[0] != 'environ'\n        or wc_args[1] != 'start_response'):\n", "        or wc_args[0] != 'environ'):\n"), _SW_DEF))
+# R13.a: "nobody in clastic calls start_response / writes the environ" is about every module of the package, not a list of them
+B('f_c13_start_response_called_in_other_module', ['C13'], 'R13.a',
+  (FL, 'def _filter_site_files(paths):', "def _early_ok(environ, start_response):\n    start_response('200 OK', [])\n    return []\n\n\ndef _filter_site_files(paths):"))
+B('f_c13_environ_written_in_other_module', ['C13'], 'R13.a',
+  (FL, 'def _filter_site_files(paths):', "def _tag(request):\n    request.environ['clastic.flaw'] = True\n\n\ndef _filter_site_files(paths):"))
+
+# R12.e: the classes that aggregate across requests by design are identified by their definition, wherever it is written
+_IMP_CORE_MW = 'from .core import Middleware\n'
+_CTX_ANCHOR = 'class ContextProcessor(Middleware):'
+
+
+def _moved_reservoir(res_def):
+    return ((STATS, _RES_DEF, ''), (STATS, _IMP_CORE_MW, _IMP_CORE_MW + 'from .context import Reservoir, fast_randint\n'),
+            (CTX, _CTX_ANCHOR, 'import random\n\n\n' + res_def + _CTX_ANCHOR))
+
+
+T('f_c12_ring_reservoir_moved_into_other_module', ['C12'], *_moved_reservoir(_RES_DEF))
+# ... a namesake of a table class is not that class: one defined elsewhere and held by a middleware is judged like any long-lived object
+B('f_c12_ring_namesake_of_design_class', ['C12'], 'R12.e',
+  (URL, 'class ScriptRootMiddleware(Middleware):\n',
+        'class Reservoir(object):\n    def __init__(self):\n        self.seen = []\n\n    def add(self, val):\n        self.seen.append(val)\n\n\n'
+        'class ScriptRootMiddleware(Middleware):\n'),
+  (URL, "        self.provides = (provided_name,)\n", "        self.provides = (provided_name,)\n        self.roots = Reservoir()\n"),
+  (URL, _SR, '        self.roots.add(request.script_root)\n' + _SR))
+# ... and a class that is not in the table does not become "by design" by living next to one that is
+B('f_c12_ring_reservoir_moved_other_class_beside_it', ['C12'], 'R12.e',
+  *(_moved_reservoir(_RES_DEF + 'class LastSeen(object):\n    def __init__(self):\n        self.value = None\n\n    def note(self, value):\n        self.value = value\n\n\n') +
+    ((STATS, 'from .context import Reservoir, fast_randint\n', 'from .context import Reservoir, fast_randint, LastSeen\n'),
+     (STATS, "    def request(self, next, request, _route):\n", "    def request(self, next, request, _route):\n        self.last_seen.note(request.path)\n"),
+     (STATS, "    def reset(self):\n", "    def reset(self):\n        self.last_seen = LastSeen()\n"))))
+
+# R12.a, generated code: the accumulated lists re-ordered in place before the join (same bag of line templates)
+_REV_TAIL = ("        cur += 1\n"
+             "    tails.reverse()\n"
+             "    return ''.join(defs + tails)\n\n\n"
+             "def _unused_recursive_form(funcs, params, inner_name, params_sofar, level):\n")
+T('f_c12_chain_builder_loop_reversed_in_place', ['C12'],
+  (S, _BCS_OLD_HEAD, _CARRIED_HEAD + _CARRIED_OK + _REV_TAIL))
+B('f_c12_chain_builder_loop_reversed_in_place_heap_store_line', ['C12'], 'R12.a',
+  (S, _BCS_OLD_HEAD, _CARRIED_HEAD + "        tails.append('%sfuncs[%s].calls = 1\\n' % (_INDENT * (cur + 1), cur))\n" + _CARRIED_OK + _REV_TAIL))
+B('f_c12_chain_builder_loop_reversed_in_place_global_line', ['C12'], 'R12.a',
+  (S, _BCS_OLD_HEAD, _CARRIED_HEAD + "        defs.append('%sglobal last_level\\n%slast_level = %s\\n' % (_INDENT * (cur + 1), _INDENT * (cur + 1), cur))\n" + _CARRIED_OK + _REV_TAIL))
